@@ -700,7 +700,7 @@ func init() {
 			}
 			return map[string]any{"depth": d, "depth_more_cfgs_and_shapes": d - 1, "depth_other_root_sets": d - 2, "ops": 6, "shape_ops": len(c12ShapeOps), "configurations": len(c12Cfgs) + len(c12MoreCfgs), "front_ends": len(c12Fronts), "root_sets": 1 + len(c12Bases)}
 		},
-		Assumptions: []string{"the uninterrupted session is the reference (its well-formedness is C05)", "read limits below the session's own header/section sizes are not configured", "the statement's 'same roots' is the same list; that a rearranged list is accepted as the same roots is documented by CarHeader.Matches only and is observed, not required"},
+		Assumptions: []string{"the uninterrupted reference issues the same calls as the history (a PutMany batch as one PutMany); an operation that the uninterrupted session refuses at the same point is outside the statement (outcome beyond-statement:*-refused-by-uninterrupted-session-too)", "the uninterrupted session is the reference (its well-formedness is C05)", "read limits below the session's own header/section sizes are not configured", "the statement's 'same roots' is the same list; that a rearranged list is accepted as the same roots is documented by CarHeader.Matches only and is observed, not required"},
 	})
 }
 
